@@ -12,7 +12,7 @@ PLAN = dict(
                            "except that the refused EncodeTextString call itself must not have written anything"],
     runs=[
         dict(name="conc", run="^(TestConcTree)$", checks=(400, 20000), shards=(2, 8), timeout=(400, 3600), race=True),
-        dict(name="exh", run="^(TestExhaustiveInts|TestExhaustiveCodePoints|TestCorpus)$"),
+        dict(name="exh", run="^(TestExhaustiveInts|TestExhaustiveCodePoints|TestShapeSweep|TestCorpus)$"),
         dict(name="tree", run="^TestPropTree$", checks=(20000, 125000), shards=(1, 16)),
     ],
     technique="rapid-generated value trees driven through the encoder API in permuted caller orders, differential against an independent RFC 8949 decoder and deterministic-encoding judge; exhaustive head-size boundaries with exact expected bytes",
